@@ -3,7 +3,7 @@ from absint import Prover
 from paths import explore
 import stdalg
 from sym import fmt, walk
-from rules.common import path_calls, arg_loc, ret_kind
+from rules.common import path_calls, arg_loc, arg_locs, ret_kind
 from rules.streams import norm, is_call
 
 LEVEL = 'other'
@@ -673,6 +673,32 @@ def r05_7(ctx):
         ctx.check(R, len(stores) == 1, 'raw-push', 'the raw OpBuilder::push must append exactly one boxed stream to its stream list (found %d)' % len(stores), fn=base)
 
 
+def r05_8(ctx):
+    """no key of an input stream is skipped: what refill takes from a stream goes onto the heap; what difference takes from its first
+    stream becomes the candidate"""
+    R = ctx.rule('R05.8', 'no input key is skipped: refill pushes whatever the stream yields; difference turns every key of its first stream into the candidate', floor=2)
+    lib = ctx.lib
+    from rules import cli
+    rf = lib.fn(HEAP + '::refill')
+    if rf is None:
+        ctx.missing(R, 'anchor:refill', 'refill not found')
+    else:
+        n, bad = cli.taken_reaches(rf, lambda c: isinstance(c[1], str) and c[1].endswith('::next'),
+                                   lambda c: isinstance(c[2], str) and c[2].endswith('BinaryHeap::<T, A>::push') or (isinstance(c[2], str) and c[2].endswith('BinaryHeap::<T>::push')))
+        if n == 0:
+            ctx.undecided(R, 'refill', 'no path of refill takes an item from a stream in a recognised form', fn=rf)
+        else:
+            ctx.check(R, not bad, 'refill', 'refill takes a (key, value) from the stream and, on some path, does not put the slot back on the heap with it: that key (the empty key, a repeated key) silently drops out of the operation', fn=rf)
+    df = lib.fn(OPS['difference'])
+    if df is not None:
+        n, bad = cli.taken_reaches(df, lambda c: isinstance(c[1], str) and c[1].endswith('::next') and not any(is_call(x, 'pop') for x in walk(c)),
+                                   lambda c: isinstance(c[2], str) and c[2].rsplit('::', 1)[-1] in ('extend', 'extend_from_slice', 'clone_from', 'clone_into') and any(l is not None and l[:2] == (1, 'key') for l in arg_locs(df, c[4])))
+        if n == 0:
+            ctx.undecided(R, 'difference-candidate', 'no path of difference takes a key from its first stream in a recognised form', fn=df)
+        else:
+            ctx.check(R, not bad, 'difference-candidate', 'difference takes a key from its first stream and, on some path, moves on without making it the candidate: that key (the empty key at the start) is never emitted', fn=df)
+
+
 def r05_6(ctx):
     R = ctx.rule('R05.6', 'wrapper delegation for OpBuilder methods and result streams; the set wrapper injects zero outputs', floor=12)
     lib = ctx.lib
@@ -727,6 +753,7 @@ def run(ctx):
         ctx.step(r05_5, ctx)
         ctx.step(r05_6, ctx)
         ctx.step(r05_7, ctx)
+        ctx.step(r05_8, ctx)
         return
     for name, path in OPS.items():
         f = lib.fn(path)
@@ -752,3 +779,4 @@ def run(ctx):
     ctx.step(r05_5, ctx)
     ctx.step(r05_6, ctx)
     ctx.step(r05_7, ctx)
+    ctx.step(r05_8, ctx)
